@@ -144,3 +144,91 @@ func forwardedLostAck(c *common.Ctx, idx int) error {
 	}
 	return nil
 }
+
+// snapshotAfterLogRestart: a WAL-mode primary whose application has checkpointed and whose next writer restarted the log
+// in place (the new generation overwrites the old frames' offsets with other pages). A replica that joins afresh
+// afterwards needs a snapshot of the database as it is now - file plus the current log - and follows from there.
+func snapshotAfterLogRestart(c *common.Ctx, be bool) error {
+	dir, err := os.MkdirTemp(c.OutDir, "c01w-")
+	if err != nil {
+		return err
+	}
+	defer os.RemoveAll(dir)
+	r := c.Rng.Fork()
+	clu := cluster.New(dir, 2*time.Second)
+	defer clu.Close()
+	p, err := clu.Start("p", true)
+	if err != nil {
+		return err
+	}
+	if clu.WaitPrimary(5*time.Second) == nil {
+		return fmt.Errorf("no primary")
+	}
+	const ps = 512
+	h := hist.NewOn(c, r.Fork(), hist.Config{PageSize: ps, AllowWAL: true, BigEndian: be}, p.Store, p.Exits, "db", nil, 0, false)
+	run := func(steps ...hist.Step) error {
+		for _, st := range steps {
+			if ob := h.Exec(st); ob.Err != "" || ob.Panic != "" || len(ob.Exits) > 0 {
+				return fmt.Errorf("%s: %s%s exits=%v", st.Op, ob.Err, ob.Panic, ob.Exits)
+			}
+		}
+		return nil
+	}
+	rep := map[string]any{"kind": "snapshot-after-log-restart", "big_endian_wal": be}
+	c.Evaluations++
+	c.Distinct(fmt.Sprintf("snapshot-after-log-restart:%v", be))
+	if err := run(hist.Step{Op: "rtx", Writes: map[uint32]uint64{1: 1, 2: 2, 3: 3, 4: 4, 5: 5, 6: 6}, NewSize: 6, ToWAL: true},
+		hist.Step{Op: "wtx", Frames: [][2]uint64{{2, 12}, {3, 13}}, NewSize: 6},
+		hist.Step{Op: "wtx", Frames: [][2]uint64{{4, 14}}, NewSize: 6}); err != nil {
+		return err
+	}
+	a, err := clu.Start("a", false)
+	if err != nil {
+		return err
+	}
+	at := p.Store.DB("db").Pos()
+	if !cluster.WaitPos(a, "db", uint64(at.TXID), uint64(at.PostApplyChecksum), 8*time.Second) {
+		c.Violate("C01:log-restart:first-joiner", fmt.Sprintf("a replica that joins a WAL-mode primary at %s stays at %s", at, a.Store.DB("db").Pos()), rep)
+		return nil
+	}
+	// application checkpoint with a restart of the log; the next transactions start the new generation at the beginning
+	if err := run(hist.Step{Op: "appckpt", CkptMode: 2},
+		hist.Step{Op: "wtx", Frames: [][2]uint64{{5, 25}}, NewSize: 6},
+		hist.Step{Op: "wtx", Frames: [][2]uint64{{6, 36}, {5, 35}}, NewSize: 6}); err != nil {
+		c.Violate("C01:log-restart:primary", "the primary fails after the application restarted the log: "+err.Error(), rep)
+		return nil
+	}
+	b, err := clu.Start("b", false)
+	if err != nil {
+		return err
+	}
+	want := p.Store.DB("db").Pos()
+	for _, n := range []*cluster.Node{a, b} {
+		if !cluster.WaitPos(n, "db", uint64(want.TXID), uint64(want.PostApplyChecksum), 8*time.Second) {
+			var got string
+			if db := n.Store.DB("db"); db != nil {
+				got = db.Pos().String()
+			}
+			c.Violate("C01:log-restart:"+n.Name, fmt.Sprintf("the application checkpointed and restarted the log, two transactions followed; the primary is at %s; replica %s (%s) is at %q after 8 s (exits %v)", want, n.Name, map[string]string{"a": "connected throughout", "b": "joined afresh afterwards"}[n.Name], got, n.Exits()), rep)
+			return nil
+		}
+	}
+	if err := run(hist.Step{Op: "wtx", Frames: [][2]uint64{{2, 42}}, NewSize: 6}); err != nil {
+		return err
+	}
+	want = p.Store.DB("db").Pos()
+	wantIm, _ := lfs.ReadImage(filepath.Dir(p.Store.DB("db").DatabasePath()))
+	for _, n := range []*cluster.Node{a, b} {
+		if !cluster.WaitPos(n, "db", uint64(want.TXID), uint64(want.PostApplyChecksum), 8*time.Second) {
+			c.Violate("C01:log-restart:follow:"+n.Name, fmt.Sprintf("replica %s does not follow to %s", n.Name, want), rep)
+			return nil
+		}
+		got, _ := lfs.ReadImage(filepath.Dir(n.Store.DB("db").DatabasePath()))
+		if got != nil && wantIm != nil {
+			if eq, why := got.Equal(wantIm); !eq {
+				c.Violate("C01:log-restart:image:"+n.Name, n.Name+" differs from the primary at the same position: "+why, rep)
+			}
+		}
+	}
+	return nil
+}
